@@ -121,7 +121,8 @@ class SimultaneousScheduler(Scheduler):
 
 
         # If any delayed events observed, store them in the model's events list for later use
-        model.events += self.delayed_events
+        # (they were collected in reverse order; put them back in the order they were sent in)
+        model.events += self.delayed_events[::-1]
 
         self.delayed_events = []
 
